@@ -1,7 +1,7 @@
 //! C07 (formatter preserves meaning), C08 (idempotent), C09 (keeps comments).
 //!
 //! One workload generator, three oracles. Library path = per-statement `format_expr` and the mirrored
-//! `format_blots` driver (`rt::format_source_lib`); CLI path = the real `blots --format`.
+//! `format_blots` driver (`rt::format_source_driver`: the real blots-wasm source compiled into the harness, see rt.rs); CLI path = the real `blots --format`.
 
 use crate::Ctx;
 use crate::gens::{Gen, GenCfg, NAMES};
@@ -9,7 +9,7 @@ use crate::hexpr::*;
 use crate::hexpr::replace_nth_child;
 use crate::out::Sink;
 use crate::rng::Rng;
-use crate::rt::{self, Sess, format_source_lib, guard, parse_program, parse_program_ast};
+use crate::rt::{self, Sess, format_source_driver, guard, parse_program, parse_program_ast};
 use crate::shapes::{self, first_difference};
 use blots_core::formatter::format_expr;
 use serde_json::json;
@@ -252,11 +252,14 @@ fn check_program(v: &Verdicts, sink: &mut Sink, src: &str, w: Option<usize>, cla
         return;
     };
     let comments_in = scan_comments(src);
-    let f1 = match format_source_lib(src, w) {
+    let f1 = match format_source_driver(src, w) {
         Ok(f) => f,
         Err(e) => {
             if e.starts_with("PANIC") {
                 sink.viol_for("C01", &format!("stage=format_source {}", crate::props::c01::norm_panic(&e)), "formatter driver panicked", json!({"source": src, "width": w, "panic": e}));
+            } else if e.starts_with("DRIVER") {
+                // the mirror formats this source, the real driver reports an error
+                sink.viol(&format!("driver-rejects-accepted-program class={}", class), "the library format driver fails on a program the parser accepts", json!({"source": src, "width": w, "driver_error": e, "origin": origin}));
             }
             return;
         }
@@ -298,7 +301,7 @@ fn check_program(v: &Verdicts, sink: &mut Sink, src: &str, w: Option<usize>, cla
         },
         "C08" => {
             if parse_program(&f1).is_ok() {
-                if let Ok(f2) = format_source_lib(&f1, w) {
+                if let Ok(f2) = format_source_driver(&f1, w) {
                     if f2 != f1 {
                         sink.viol(&format!("not-idempotent program class={} w={}", class, wcls(w)), "formatting the formatter's output changes it (library driver)", json!({"source": src, "width": w, "first": f1, "second": f2, "origin": origin}));
                     }
@@ -532,7 +535,7 @@ fn inject(stmts: &[H], cls: CClass, r: &mut Rng, every: bool) -> (String, usize)
 // workloads
 
 fn gen_program(r: &mut Rng, n_stmts: usize, depth: usize) -> Vec<H> {
-    let mut g = Gen::new(r, GenCfg { inputs: true, odd_strings: false, ..GenCfg::default() });
+    let mut g = Gen::new(r, GenCfg { inputs: true, odd_strings: true, ..GenCfg::default() });
     g.program(n_stmts, depth, &NAMES).0
 }
 
@@ -563,7 +566,34 @@ fn layout_programs() -> Vec<(&'static str, String)> {
     ]
 }
 
+fn id_leaf_paths(h: &H, prefix: &mut Vec<usize>, out: &mut Vec<Vec<usize>>) {
+    let mut kids: Vec<H> = Vec::new();
+    h.for_children(&mut |c| kids.push(c.clone()));
+    if kids.is_empty() {
+        if matches!(h, H::Id(_)) && !prefix.is_empty() {
+            out.push(prefix.clone());
+        }
+        return;
+    }
+    for (i, k) in kids.iter().enumerate() {
+        prefix.push(i);
+        id_leaf_paths(k, prefix, out);
+        prefix.pop();
+    }
+}
+
+fn replace_path(h: &H, path: &[usize], new: &H) -> H {
+    if path.is_empty() {
+        return new.clone();
+    }
+    let mut kids: Vec<H> = Vec::new();
+    h.for_children(&mut |c| kids.push(c.clone()));
+    let sub = replace_path(&kids[path[0]], &path[1..], new);
+    replace_nth_child(h, path[0], &sub)
+}
+
 pub fn run(which: &str, ctx: &Ctx, sink: &mut Sink) {
+    rt::open_driver_journal(ctx.opt("journal"));
     let v = Verdicts { which };
     let cli = ctx.opt("cli").map(|s| s.to_string());
     let widths: Vec<Option<usize>> = if ctx.quick { WIDTHS_Q.to_vec() } else { WIDTHS_ALL.to_vec() };
@@ -592,6 +622,38 @@ pub fn run(which: &str, ctx: &Ctx, sink: &mut Sink) {
             }
             for w in &widths {
                 check_stmt(&v, sink, &src, *w, Some((&sh.ctx, &sh.child)), "two-level");
+            }
+        }
+        // ---- the same shapes with one identifier leaf replaced by a string literal that spans lines / holds a
+        // carriage return / looks like a comment: a literal's text must come through every layout unchanged
+        let awkward = ["cr\r\nlf", "two\nlines\n  indented", "// no comment", "tab\there"];
+        let mut base_shapes = shapes::two_level();
+        base_shapes.extend(shapes::wrapped_two_level());
+        let step = if ctx.quick { 7 } else { 1 };
+        for (si, sh) in base_shapes.iter().enumerate() {
+            if si % step != (ctx.seed as usize) % step {
+                continue;
+            }
+            idx += 1;
+            if !ctx.mine(idx) {
+                continue;
+            }
+            let mut paths = Vec::new();
+            id_leaf_paths(&sh.tree, &mut Vec::new(), &mut paths);
+            for (pi, p) in paths.iter().enumerate() {
+                let lit = awkward[(si + pi) % awkward.len()];
+                let t = replace_path(&sh.tree, p, &H::Str(lit.to_string()));
+                let src = print_full(&t);
+                match parse1(&src) {
+                    Ok(a) if a == t => {}
+                    _ => {
+                        sink.count("string-leaf-shape-not-admitted", 1);
+                        continue;
+                    }
+                }
+                for w in [Some(1), Some(20), None] {
+                    check_stmt(&v, sink, &src, w, Some((&sh.ctx, "string-literal-leaf")), "string-leaf");
+                }
             }
         }
         // ---- hand-written layout programs x all widths
@@ -771,7 +833,7 @@ fn fixed_programs() -> Vec<Vec<H>> {
 /// evaluating the source and the formatted source gives the same results (closed programs)
 fn eval_equiv(sink: &mut Sink, stmts: &[H], w: Option<usize>) {
     let src = print_program(stmts, Mode::Min);
-    let Ok(f) = format_source_lib(&src, w) else { return };
+    let Ok(f) = format_source_driver(&src, w) else { return };
     let s1 = Sess::new();
     let s2 = Sess::new();
     let (Ok(o1), Ok(o2)) = (s1.run(&src, false), s2.run(&f, false)) else {
